@@ -969,8 +969,8 @@ func c05Excluded(o c05Opts, f *syntax.File) string {
 				if !isFor || c.Pos().After(fc.DoPos) && c.Pos().Line() != fc.DoPos.Line() {
 					set("trailing-comment-before-heredoc-body") // F13: Cmd.End() lies after c only because of a heredoc body
 				} else {
-					if has(fc.Loop) {
-						set("for-header-comments") // F8
+					if has(fc.Loop) || c05HasSubst(fc.Loop) {
+						set("for-header-substitution") // F8
 					}
 					if wi, ok := fc.Loop.(*syntax.WordIter); ok && o.single && !wi.InPos.IsValid() {
 						set("single-for-name-comment") // F14
@@ -999,4 +999,17 @@ func c05Excluded(o c05Opts, f *syntax.File) string {
 		return true
 	})
 	return reason
+}
+
+// c05HasSubst reports whether a command or process substitution occurs below n.
+func c05HasSubst(n syntax.Node) bool {
+	found := false
+	syntax.Walk(n, func(n syntax.Node) bool {
+		switch n.(type) {
+		case *syntax.CmdSubst, *syntax.ProcSubst:
+			found = true
+		}
+		return !found
+	})
+	return found
 }
